@@ -58,6 +58,8 @@ class Run:
         }
         if path:
             v["path"] = path
+        if any(all(o.get(k) == v.get(k) for k in ("rule", "file", "line", "function", "construct")) for o in self.violations):
+            return False
         self.violations.append(v)
         return False
 
